@@ -17,9 +17,9 @@ import sys
 
 from detsim import kernel
 from detsim.kernel import EventLog, jdump, short_hash
-from detsim.fingerprint import Canon, brief, unhex_floats
+from detsim.fingerprint import Canon, brief, unhex_floats, obj_state
 from detsim.sched import (Sched, SimCancelled, StepBudgetExceeded, Replay, RoundRobin,
-                          draw_decider, Decider)
+                          draw_decider, Decider, wrap_module_locks)
 from detsim.simfs import SimFS
 from checks.common import CheckBase
 from checks import c09_ops as ops_mod
@@ -142,6 +142,8 @@ class C09(CheckBase):
         self.weights = ops_mod.kind_weights()
         self.kinds = sorted(ops_mod.OPS)
         self.kind_w = [self.weights[k] for k in self.kinds]
+        self.wrapped_locks = wrap_module_locks([m for n, m in sorted(sys.modules.items())
+                                                if m is not None and (n == 'geodepy' or n.startswith('geodepy.'))])
         self.base_fast = self.fast_snapshot()
         self.base_mod = self.module_snapshot()
 
@@ -167,7 +169,7 @@ class C09(CheckBase):
         cls.__delattr__ = __delattr__
 
     def _barrier_event(self, obj, name, value, deleted):
-        d = vars(obj)
+        d = obj_state(obj)
         if not deleted and name in d:
             old = d[name]
             if old is value or (type(old) is type(value) and self.canon.canon(old) == self.canon.canon(value)):
@@ -185,7 +187,7 @@ class C09(CheckBase):
 
     # -------------------------------------------------------------- snapshots
     def fast_snapshot(self):
-        return [repr(sorted(vars(o).items(), key=lambda kv: kv[0])) for _, o in self.cat_objs]
+        return [repr(sorted(obj_state(o).items(), key=lambda kv: kv[0])) for _, o in self.cat_objs]
 
     def module_snapshot(self):
         """(module, name) -> (digest, judged).  judged = public name bound at
@@ -656,10 +658,7 @@ class C09(CheckBase):
             elif isinstance(o, dict):
                 self._reachable_ids(list(o.values()), depth + 1, acc)
             elif self.canon.is_repo_class(type(o)):
-                try:
-                    self._reachable_ids(list(vars(o).values()), depth + 1, acc)
-                except TypeError:
-                    pass
+                self._reachable_ids(list(obj_state(o).values()), depth + 1, acc)
         return acc
 
     def _scribble(self, res, args, depth=0, mine=None):
@@ -694,10 +693,7 @@ class C09(CheckBase):
                 n += self._scribble(x, args, depth + 1, mine)
             return n
         if self.canon.is_repo_class(type(res)) and not isinstance(res, (float, int, str)):
-            try:
-                d = vars(res)
-            except TypeError:
-                return n
+            d = obj_state(res)
             for k in sorted(d):
                 v = d[k]
                 if isinstance(v, bool) or not isinstance(v, (int, float)):
